@@ -39,10 +39,11 @@ type c09Resp struct {
 	ctype  string
 	list   *storage.Objects
 	copied *storage.RewriteResponse
+	bucket *storage.Bucket
 }
 
 func c09Pick(i int) c09Op {
-	op := c09Op{kind: vChoice("op", 0, 7)}
+	op := c09Op{kind: vChoice("op", 0, 8)}
 	switch op.kind {
 	case 0: // upload (optionally only if the object does not exist)
 		op.name = c09Names[vChoice("name", 0, 2)]
@@ -104,6 +105,8 @@ func c09Do(g *GcsEmu, op c09Op) c09Resp {
 		g.handleGcsMediaRequest(dontNeedUrls, w, "", "b", op.name)
 	case 6:
 		g.handleGcsMetadataRequest(dontNeedUrls, w, "b", op.name)
+	case 8: // bucket metadata
+		g.handleGcsMetadataRequest(dontNeedUrls, w, "b", "")
 	case 7:
 		q := url.Values{}
 		if op.prefix != "" {
@@ -123,6 +126,8 @@ func c09Do(g *GcsEmu, op c09Op) c09Resp {
 		switch x := b.(type) {
 		case *storage.Objects:
 			r.list = x
+		case *storage.Bucket:
+			r.bucket = x
 		case *storage.RewriteResponse:
 			r.copied = x
 			r.obj = x.Resource
@@ -157,6 +162,10 @@ func c09SameResp(a, b c09Resp, tag string) {
 	vAssert(len(a.raw) == len(b.raw) && vBytesEq(a.raw, b.raw), tag+":same-body-bytes")
 	if a.code == http.StatusOK {
 		vAssert(a.ctype == b.ctype, tag+":same-content-type-header")
+	}
+	vAssert((a.bucket == nil) == (b.bucket == nil), tag+":bucket-resource-present")
+	if a.bucket != nil && b.bucket != nil {
+		vAssert(a.bucket.Name == b.bucket.Name && a.bucket.Kind == b.bucket.Kind && a.bucket.StorageClass == b.bucket.StorageClass, tag+":same-bucket-resource")
 	}
 	vAssert((a.list == nil) == (b.list == nil), tag+":listing-present")
 	if a.list != nil && b.list != nil {
@@ -198,13 +207,18 @@ func c09SameStores(a, b *GcsEmu, exact bool, tag string) {
 func H_C09_equiv() {
 	mem, file := vNewEmuOn(0), vNewEmuOn(1)
 	// acknowledged history before the program: an uploaded object and an uploaded-then-patched one
-	if vChoice("preseeded", 0, 1) == 1 {
+	switch vChoice("preseeded", 0, 2) {
+	case 1:
 		for _, g := range []*GcsEmu{mem, file} {
 			vPut(g, "b", "a.t", []byte("1"))
 			vPut(g, "b", "a/b", []byte("22"))
 			c09Do(g, c09Op{kind: 1, name: "a/b"})
 		}
 		c09SameStores(mem, file, false, "seed")
+	case 2: // a single object, in a sub-directory
+		for _, g := range []*GcsEmu{mem, file} {
+			vPut(g, "b", "a/b", []byte("22"))
+		}
 	}
 	k := vBound("c09-requests", 2, 3)
 	restartAt := vChoice("restart.at", 0, k)
